@@ -19,7 +19,9 @@
                                       terminalErrors.Set | compare-and-delete under publishMu | notify
      v2 pkg/lifecycle-poc/service.go  Start: ... | sink.Open | worker.Open (source, DLQ) | goroutines + cleanup
                                       registered | publish | UpdateStatus(Running)+close(startupDone)
-                                      cleanup: as v1 but the map delete is unconditional
+                                      cleanup: as v1 (the map delete was unconditional as shipped, [f_cad])
+   The repairs applied to the code since it was found are flags of the configuration ([fixes]): [repaired] is the
+   code as it stands (used by the checks), [shipped] the code as found (used by the _shipped_refuted witnesses).
    Stop/StopAll/StopAndWait/WaitPipeline are split at their map lookup, their status read and their action.
    Everything the engine does with records is abstracted into environment actions on a run:
    a failure is injected, it surfaces (Kill), the source is torn down, all goroutines have returned.
